@@ -9,7 +9,7 @@ for d in $OUT/m*/; do
   if ! patch -s -p1 -d $ROOT < "$d/patch.diff" >/dev/null 2>&1; then echo "$P $m: PATCH DOES NOT APPLY"; rm -rf $ROOT; continue; fi
   PYTHONPATH=$ROOT/src /venv/bin/python "$d/demo.py" >/dev/null 2>&1; dm=$?
   /venv/bin/python "$d/demo.py" >/dev/null 2>&1; dc=$?
-  cd /verif; out=$(PYTHONPATH=$ROOT/src VERIF_SEED=${VERIF_SEED:-1} /venv/bin/python vcheck.py "$P" --tier quick 2>&1); ce=$?
+  cd /verif; out=$(VERIF_EVIDENCE_DIR=/tmp/verif_scratch_evidence PYTHONPATH=$ROOT/src VERIF_SEED=${VERIF_SEED:-1} /venv/bin/python vcheck.py "$P" --tier quick 2>&1); ce=$?
   rm -rf $ROOT
   clauses=$(echo "$out" | grep -o "^  \[[a-z_0-9]*\] clause=[a-z_A-Z0-9]*" | sort -u | tr '\n' ';')
   echo "$P $m: demo_mutant=$dm demo_clean=$dc check_exit=$ce  $clauses"
